@@ -173,6 +173,9 @@ func (c *Chain) guard(phase string, f func()) (ok bool) {
 	defer func() {
 		if r := recover(); r != nil {
 			c.Panics = append(c.Panics, PanicInfo{Phase: phase, Value: fmt.Sprint(r), Stack: string(debug.Stack())})
+			if os.Getenv("VERIF_DEBUG_STACK") != "" {
+				fmt.Fprintf(os.Stderr, "PANIC in %s at height %d: %v\n%s\n", phase, c.Header.Height, r, debug.Stack())
+			}
 			ok = false
 		}
 	}()
